@@ -140,6 +140,100 @@ def grind_keys(dev, rng, profile, tries=4000):
 
 
 # ------------------------------------------------------------------------------------------------
+# the SHAPE of the digests the verifier compares (or turns into a key)
+# ------------------------------------------------------------------------------------------------
+# Sites:  cm      SHA-256(custom message), first half of the quote's report data          (SGX)
+#         ak      SHA-256(attestation key x|y | QE auth data), QE report data              (SGX)
+#         pkh     the public-keys hash inside the powHSM / legacy signer message           (both)
+#         tw_ui, tw_sg   HMAC-SHA256(app hash, attestation key): the tweak of the UI /
+#                 signer endorsement key                                                   (Ledger)
+#         ui_hash, s_hash   the app hashes themselves (tweak inputs, printed values)       (Ledger)
+# Classes of a 32-byte value: z2 (last two bytes 0x00), z1 (last byte 0x00), sp (ends in a blank),
+# nl (ends in a line feed), lz (first byte 0x00), ord (anything else).  A genuine device reaches
+# every class: the simulators GRIND a free input (the timestamp of the custom message, the QE auth
+# data bytes, a wallet key, the app hash) with the case's seeded generator until the digest has the
+# class asked for (256 tries; 65 536 for z2 - the wallet keys for pkh:z2 are tabulated).
+DIGEST_CLASSES = ("z1", "z2", "lz", "sp", "nl")
+DIGEST_SITES = {"ledger": ("pkh", "tw_ui", "tw_sg", "ui_hash", "s_hash"), "sgx": ("cm", "ak", "pkh")}
+# wallet key scalars (sorted path order) whose keys hash ends in 0x00 0x00: five fixed ones,
+# sha256("c15-pkh-<i>") mod n, and a sixth found by search (three alternatives)
+PKH_Z2_LAST = (0x76537aaaf3922f9cd5e4a06dcae138503d1c4fffbc5a6172db90a21d10cfa718,
+               0x9fd49fa6650eb278c38490bf9f462e9b41506c9859dddf123622af3c826dbd28,
+               0xd3cab77428e5774369dcff4b2b971f1d0746e57a308e0b0dad0c6d122721c57b)
+
+
+def digest_class(b):
+    if b[-2:] == b"\x00\x00":
+        return "z2"
+    if b[-1] == 0:
+        return "z1"
+    if b[-1] == 0x20:
+        return "sp"
+    if b[-1] == 0x0a:
+        return "nl"
+    return "lz" if b[0] == 0 else "ord"
+
+
+def force_class(rng, cls, n=32):
+    """A free n-byte value of the class."""
+    b = bytearray(rng.randrange(1, 256) for _ in range(n))
+    b[0] = b[0] if b[0] else 1
+    if b[-1] in (0, 0x20, 0x0a):
+        b[-1] = 0x55
+    if cls == "z1":
+        b[-1] = 0
+    elif cls == "z2":
+        b[-1] = b[-2] = 0
+    elif cls == "sp":
+        b[-1] = 0x20
+    elif cls == "nl":
+        b[-1] = 0x0a
+    elif cls == "lz":
+        b[0] = 0
+    assert digest_class(bytes(b)) == cls or cls == "ord"
+    return bytes(b)
+
+
+def grind(rng, cls, make, digest, limit=3000000):
+    """Draw free inputs with make(rng) until digest(input) has the class; returns the input."""
+    for _ in range(limit):
+        x = make(rng)
+        if digest_class(digest(x)) == cls:
+            return x
+    raise AssertionError("no input gives a digest of class %s" % cls)
+
+
+def grind_pkh(dev, rng, cls):
+    """Wallet keys whose public-keys hash has the class (the last key, in path order, is re-drawn;
+    z2: tabulated key set)."""
+    from .simdev_admin import pub_uncompressed, N as _N
+    pbs = [path_bytes(p) for p in SORTED_PATHS]
+    if cls == "z2":
+        ks = [int.from_bytes(hashlib.sha256(b"c15-pkh-%d" % i).digest(), "big") % _N for i in range(5)]
+        ks.append(PKH_Z2_LAST[rng.randrange(len(PKH_Z2_LAST))])
+        for pb, k in zip(pbs, ks):
+            dev.key_scalars[pb] = k
+            dev.keys[pb] = pub_uncompressed(k)
+        return
+    h0 = hashlib.sha256()
+    for pb in pbs[:-1]:
+        h0.update(dev.keys[pb])
+
+    def dg(k):
+        h = h0.copy()
+        h.update(pub_uncompressed(k))
+        return h.digest()
+    k = grind(rng, cls, lambda r: r.randrange(1, _N), dg)
+    dev.key_scalars[pbs[-1]] = k
+    dev.keys[pbs[-1]] = pub_uncompressed(k)
+
+
+def digest_for(case, site):
+    d = case.get("digest")
+    return d["cls"] if d and d.get("site") == site and d.get("cls", "ord") != "ord" else None
+
+
+# ------------------------------------------------------------------------------------------------
 # the SHAPE of the signatures a genuine device produces
 # ------------------------------------------------------------------------------------------------
 # An ECDSA signature is a pair (r, s) of integers below the group order; how long they are decides
@@ -370,6 +464,17 @@ class LedgerDevice(AdminSimDevice):
             self.timestamp = int.from_bytes(content(rng, 8, prof), "big")
         if case.get("grind_pkh"):
             grind_keys(self, rng, prof)
+        drng = random.Random("c15-digest:%d" % case["devseed"])
+        if digest_for(case, "pkh"):
+            grind_pkh(self, drng, digest_for(case, "pkh"))
+        if digest_for(case, "ui_hash"):
+            self.ui_hash = force_class(drng, digest_for(case, "ui_hash"))
+        if digest_for(case, "s_hash"):
+            self.signer_hash = force_class(drng, digest_for(case, "s_hash"))
+        if digest_for(case, "tw_ui"):
+            self.ui_hash = grind(drng, digest_for(case, "tw_ui"), lambda r: r.randbytes(32), self.tweak_of)
+        if digest_for(case, "tw_sg"):
+            self.signer_hash = grind(drng, digest_for(case, "tw_sg"), lambda r: r.randbytes(32), self.tweak_of)
         self.endo_set = False
         self.endo_acked = False
         self.shape_rng = random.Random("c15-shape:%d" % case["devseed"])
@@ -405,6 +510,16 @@ class LedgerDevice(AdminSimDevice):
             return b"HSM:SIGNER:" + self.s_ver.encode() + pubkeys_hash(self.keys65())
         return b"POWHSM:" + self.s_ver.encode() + b"::" + b"led" + ud + pubkeys_hash(self.keys65()) + \
             self.best_block + self.last_tx + self.timestamp.to_bytes(8, "big")
+
+    def tweak_of(self, app_hash):
+        """HMAC-SHA256(key = app hash, msg = uncompressed attestation key): the endorsement tweak."""
+        import hmac
+        return hmac.new(app_hash, self.attkey.pub65, hashlib.sha256).digest()
+
+    def digests(self, ud):
+        return {"pkh": digest_class(pubkeys_hash(self.keys65())), "ui_hash": digest_class(self.ui_hash),
+                "s_hash": digest_class(self.signer_hash), "tw_ui": digest_class(self.tweak_of(self.ui_hash)),
+                "tw_sg": digest_class(self.tweak_of(self.signer_hash))}
 
     def _sign(self, key, msg, site):
         """DER signature by a secp256k1 key; ground to the case's shape when this site is the one."""
@@ -667,6 +782,13 @@ class SgxMaterial:
         prof = case.get("content", "random")
         self.qe_auth = content(rng, case["qeauth"], prof)
         self.att_xy = self.att.xy()
+        if digest_for(case, "ak"):
+            if case["qeauth"] < 4:
+                raise AssertionError("too little QE auth data to grind the key binding")
+            n_auth = case["qeauth"]
+            self.qe_auth = grind(random.Random("c15-digest-ak:%d" % case["devseed"]), digest_for(case, "ak"),
+                                 lambda r: r.randbytes(n_auth),
+                                 lambda a: hashlib.sha256(self.att_xy + a).digest())
         qe = RB.random(rng)
         qe["report_data"] = hashlib.sha256(self.att_xy + self.qe_auth).digest() + bytes(32)
         self.qe_fields = qe
@@ -713,6 +835,15 @@ class SgxDevice(AdminSimDevice):
             self.timestamp = int.from_bytes(content(rng, 8, prof), "big")
         if case.get("grind_pkh"):
             grind_keys(self, rng, prof)
+        drng = random.Random("c15-digest:%d" % case["devseed"])
+        if digest_for(case, "pkh"):
+            grind_pkh(self, drng, digest_for(case, "pkh"))
+        if digest_for(case, "cm"):
+            # the timestamp is the free field of the custom message
+            head = self.custom_message(bytes.fromhex(case["ud"]))[:-8]
+            ts = grind(drng, digest_for(case, "cm"), lambda r: r.getrandbits(63).to_bytes(8, "big"),
+                       lambda t: hashlib.sha256(head + t).digest())
+            self.timestamp = int.from_bytes(ts, "big")
         self.mat = None
         self.att = None
         self.att_log = []
@@ -722,6 +853,12 @@ class SgxDevice(AdminSimDevice):
         return {p: self.keys[path_bytes(p)] for p in SORTED_PATHS}
 
     set_state = LedgerDevice.set_state
+
+    def digests(self, ud):
+        m = self.material(ud)
+        return {"pkh": digest_class(pubkeys_hash(self.keys65())),
+                "cm": digest_class(hashlib.sha256(m.custom).digest()),
+                "ak": digest_class(hashlib.sha256(m.att_xy + m.qe_auth).digest())}
 
     def relock(self):
         self.unlocked = False
@@ -1056,6 +1193,8 @@ def _obs(case, truth):
             "http": [], "ud_sent": "", "att_file": "no", "contacted": "no", "g_err": "none", "v_err": "none",
             "hist": case.get("hist", "single"), "prev_ok": "na", "dev_prev": truth,
             "earlier_before": [], "earlier_after": [], "verify_prev": "na", "printed_prev": empty_printed(),
+            "digsite": (case.get("digest") or {}).get("site", "none"),
+            "digclass": (case.get("digest") or {}).get("cls", "ord"),
             "sigsite": (case.get("sigshape") or {}).get("site", "none"),
             "sigclass": (case.get("sigshape") or {}).get("cls", "any"),
             "plat": case["plat"], "framing": case["framing"], "alt": case["alt"]["site"],
@@ -1082,6 +1221,7 @@ def _run_ledger(case, scratch, tag):
     o["http"] = http.calls
     o["ud_sent"] = ud_sent(dev)
     diag["shapes"] = _check_shapes(case, dev.sig_shapes)
+    diag["digests"] = _check_digests(case, dev.digests(ud))
     diag["att_log"] = dev.att_log
     diag["admin_cmds"] = [c for (c, _d) in dev.admin_log]
     _unapplied(o, dev)
@@ -1208,6 +1348,13 @@ def _run_ledger_commands(case, scratch, tag, dev, world, ud, ud_text, o, diag):
             o["earlier_after"] = kept_rows(earlier)
 
 
+def _check_digests(case, measured):
+    d = case.get("digest")
+    if d and d.get("cls", "ord") != "ord" and measured.get(d["site"]) != d["cls"]:
+        raise AssertionError("digest %s was to be of class %s, is %s" % (d["site"], d["cls"], measured.get(d["site"])))
+    return measured
+
+
 def _check_shapes(case, measured):
     """{site: '<r class>/<s class>'} as measured on the signatures really produced; a signature that
     was to be ground to a shape and came out otherwise is a failure of the harness."""
@@ -1255,6 +1402,7 @@ def _run_sgx(case, scratch, tag):
     o["http"] = http.calls
     o["ud_sent"] = ud_sent(dev)
     diag["shapes"] = _check_shapes(case, dev.mat.sig_shapes if dev.mat is not None else {})
+    diag["digests"] = _check_digests(case, dev.digests(ud))
     diag["att_log"] = dev.att_log
     if dev.att is not None:
         diag["env_len"] = len(dev.att["env"])
@@ -1431,6 +1579,10 @@ def concretise(b, rng, profile=None, grind=False):
         case.update({"hist": b["hist"], "ud1": content(rng, 32, p1).hex(), "relock": rng.random() < 0.5,
                      "state1": {"best": content(rng, 32, p1).hex(), "ltx": content(rng, 8, p1).hex(),
                                 "ts": rng.choice((0, 1, rng.getrandbits(40)))}})
+    dg = b.get("digest")
+    if dg and dg.get("site", "none") != "none":
+        case["digest"] = {"site": dg["site"], "cls": dg["cls"]}
+        case["qeauth"] = max(case["qeauth"], 4) if dg["site"] == "ak" else case["qeauth"]
     sh = b.get("shape")
     if sh and sh.get("site", "none") != "none":
         case["sigshape"] = {"site": sh["site"], "cls": sh["cls"]}
@@ -1540,9 +1692,11 @@ def signature(clause, case):
         s += " root=url"
     if case.get("hist", "single") != "single":
         s += " hist=%s" % case["hist"]
+    if case.get("digest") and a["site"] == "none":
+        s += " digest=%s:%s" % (case["digest"]["site"], case["digest"]["cls"])
     if case.get("sigshape") and a["site"] == "none":
         s += " sig=%s:%s" % (case["sigshape"]["site"], case["sigshape"]["cls"])
-    if clause == "GenuineVerifies" and case.get("content", "random") != "random" and "sig=" not in s:
+    if clause == "GenuineVerifies" and case.get("content", "random") != "random" and "sig=" not in s and "digest=" not in s:
         s += " content=%s%s" % (case["content"], "+keyshash" if case.get("grind_pkh") else "")
     return s
 
